@@ -70,6 +70,8 @@ Compute == /\ loaded # "none"
            /\ h' = Append(h, "C") /\ UNCHANGED <<loaded, opts, ver>>
 Foreign(s) == /\ dirty' = [dirty EXCEPT ![s] = (@ \ {"meas"}) \cup {"stubs", "pos", "ovl"}]
               /\ h' = Append(h, "F:" \o s) /\ UNCHANGED <<loaded, opts, ver, result>>
+\* another engine - even one built from the very same options dict - is re-configured: engines share nothing
+Decoy(d) == /\ h' = Append(h, "X:" \o d) /\ UNCHANGED <<loaded, opts, dirty, ver, result>>
 Remeasure(s) == /\ ver' = [ver EXCEPT ![s] = 3 - @]
                 \* whatever was derived from the old measurements by an earlier layout of these objects is now stale
                 /\ dirty' = [dirty EXCEPT ![s] = IF @ = {} THEN {} ELSE @ \cup {"meas"}]
